@@ -66,6 +66,11 @@ type nextHarnessActionMessage struct {
 
 func (m nextHarnessActionMessage) message() {}
 
+// doneHarnessActionMessage tells the harness that the activity has answered a token
+type doneHarnessActionMessage struct{}
+
+func (m doneHarnessActionMessage) message() {}
+
 type harness struct {
 	*wiring
 	mch                chan imessage
@@ -75,8 +80,13 @@ type harness struct {
 	eventConsumers     []event.IConsumer
 	eventConsumersLock sync.RWMutex
 
-	once  sync.Once
-	flows []*flow
+	once sync.Once
+	// listeners create, for every boundary event, the flow that waits at it
+	listeners []func() *flow
+	// tokens counts the tokens inside the activity, withdraw holds the termination
+	// channels of the listener flows armed for them (both owned by run)
+	tokens   int
+	withdraw []chan bool
 }
 
 func (node *harness) ConsumeEvent(ev event.IEvent) (result event.ConsumptionResult, err error) {
@@ -129,7 +139,6 @@ func newHarness(wr *wiring, idGenerator id.IGenerator, constructor constructor) 
 		wiring:   wr,
 		mch:      make(chan imessage, len(wr.incoming)*2+1),
 		activity: activity,
-		flows:    make([]*flow, 0),
 	}
 
 	err = node.eventEgress.RegisterEventConsumer(node)
@@ -162,10 +171,32 @@ func newHarness(wr *wiring, idGenerator id.IGenerator, constructor constructor) 
 				return action
 			}
 		}
-		flowable := newFlow(node.definitions, catchEventNode, node.tracer, node.flowNodeMapping, node.flowWaitGroup, idGenerator, actionTransformer, node.locator)
-		node.flows = append(node.flows, flowable)
+		node.listeners = append(node.listeners, func() *flow {
+			return newFlow(node.definitions, catchEventNode, node.tracer, node.flowNodeMapping, node.flowWaitGroup, idGenerator, actionTransformer, node.locator)
+		})
 	}
 	return
+}
+
+// arm starts a listener flow at every boundary event. The listeners live as long
+// as a token is inside the activity: left waiting after it, they would keep the
+// instance from ever completing.
+func (node *harness) arm(ctx context.Context) {
+	for _, listener := range node.listeners {
+		ch := make(chan bool, 1)
+		flowable := listener()
+		flowable.SetTerminate(func(*schema.IdRef) chan bool { return ch })
+		flowable.Start(ctx)
+		node.withdraw = append(node.withdraw, ch)
+	}
+}
+
+// disarm ends the listener flows that still wait at their boundary event
+func (node *harness) disarm() {
+	for _, ch := range node.withdraw {
+		ch <- true
+	}
+	node.withdraw = nil
 }
 
 func (node *harness) run(ctx context.Context, sender tracing.ISenderHandle) {
@@ -176,7 +207,11 @@ func (node *harness) run(ctx context.Context, sender tracing.ISenderHandle) {
 		case msg := <-node.mch:
 			switch m := msg.(type) {
 			case nextHarnessActionMessage:
-				atomic.StoreInt32(&node.active, 1)
+				node.tokens++
+				if node.tokens == 1 {
+					node.arm(ctx)
+					atomic.StoreInt32(&node.active, 1)
+				}
 				node.tracer.Send(ActiveBoundaryTrace{Start: true, Node: node.activity.Element()})
 				in := node.activity.NextAction(ctx, m.flow)
 				out := make(chan IAction, 1)
@@ -184,13 +219,22 @@ func (node *harness) run(ctx context.Context, sender tracing.ISenderHandle) {
 					select {
 					case rsp := <-in:
 						out <- rsp
-						atomic.StoreInt32(&node.active, 0)
-						node.tracer.Send(ActiveBoundaryTrace{Start: false, Node: node.activity.Element()})
+						select {
+						case node.mch <- doneHarnessActionMessage{}:
+						case <-bctx.Done():
+						}
 					case <-bctx.Done():
 						return
 					}
 				}(ctx)
 				m.response <- out
+			case doneHarnessActionMessage:
+				node.tokens--
+				if node.tokens == 0 {
+					atomic.StoreInt32(&node.active, 0)
+					node.disarm()
+				}
+				node.tracer.Send(ActiveBoundaryTrace{Start: false, Node: node.activity.Element()})
 			}
 		case <-ctx.Done():
 			node.tracer.Send(CancellationFlowNodeTrace{Node: node.activity.Element()})
@@ -203,10 +247,6 @@ func (node *harness) NextAction(ctx context.Context, flow Flow) chan IAction {
 	node.once.Do(func() {
 		sender := node.tracer.RegisterSender()
 		go node.run(ctx, sender)
-		for i := range node.flows {
-			flowable := node.flows[i]
-			flowable.Start(ctx)
-		}
 	})
 
 	response := make(chan chan IAction, 1)
